@@ -100,7 +100,8 @@ func cmdPlugin(args []string) {
 	in := fs.String("in", "", "CASE lines")
 	out := fs.String("out", "", "events ndjson")
 	runs := fs.Int("runs", 3, "fresh processes per case")
-	stride := fs.Int("stride", 1, "execute every n-th case")
+	stride := fs.Int("stride", 1, "execute about one case in n (chosen by a hash of the case index: a fixed stride aliases with the block structure of the enumeration)")
+	seed := fs.Int("seed", 1, "sampling seed")
 	fs.Parse(args)
 	u := corpus.PluginUniverse()
 	universe := []*corpus.File{u["xbe"], u["A"], u["xa2"], u["B"], u["C"], u["D"], u["E"]}
@@ -128,8 +129,14 @@ func cmdPlugin(args []string) {
 			continue
 		}
 		idx++
-		if idx%*stride != 0 {
-			continue
+		if *stride > 1 {
+			h := uint64(idx)*0x9E3779B97F4A7C15 + uint64(*seed)*0xBF58476D1CE4E5B9
+			h ^= h >> 29
+			h *= 0x94D049BB133111EB
+			h ^= h >> 32
+			if h%uint64(*stride) != 0 {
+				continue
+			}
 		}
 		var c pluginCase
 		if err := json.Unmarshal([]byte(line[5:]), &c); err != nil {
